@@ -221,6 +221,7 @@ fn shift(f: Fault, by: u64) -> Fault {
         Fault::FailStop { at, kind } => Fault::FailStop { at: at + by, kind },
         Fault::WritesFail { at } => Fault::WritesFail { at: at + by },
         Fault::Interrupted { at, n } => Fault::Interrupted { at: at + by, n },
+        Fault::Transient { at, n } => Fault::Transient { at: at + by, n },
     }
 }
 
@@ -439,11 +440,25 @@ fn perform_inner(call: &Call, prep: &Prepared, face: Face, pol: &Policy, fault: 
 
 pub fn draw_call(rng: &mut Rng, tier: Tier) -> Call {
     let range = |rng: &mut Rng| {
-        if rng.chance(60) {
+        if rng.chance(50) {
             RangeSpec::ALL
+        } else if rng.chance(35) {
+            // boundary ranges: empty, inverted, bounds at 0 and at the top
+            *rng.pick(&[
+                RangeSpec(Bnd::Unb, Bnd::Exc(0)),
+                RangeSpec(Bnd::Inc(0), Bnd::Exc(0)),
+                RangeSpec(Bnd::Unb, Bnd::Inc(0)),
+                RangeSpec(Bnd::Inc(0), Bnd::Inc(0)),
+                RangeSpec(Bnd::Exc(0), Bnd::Unb),
+                RangeSpec(Bnd::Inc(5), Bnd::Exc(2)),
+                RangeSpec(Bnd::Exc(7), Bnd::Inc(7)),
+                RangeSpec(Bnd::Unb, Bnd::Exc(1)),
+                RangeSpec(Bnd::Exc(u64::MAX), Bnd::Unb),
+                RangeSpec(Bnd::Inc(1), Bnd::Inc(u64::MAX)),
+            ])
         } else {
             let v = rng.log_range(1, 1 << 30);
-            *rng.pick(&[RangeSpec(Bnd::Unb, Bnd::Exc(v)), RangeSpec(Bnd::Inc(v), Bnd::Unb), RangeSpec(Bnd::Exc(v / 3), Bnd::Inc(v))])
+            *rng.pick(&[RangeSpec(Bnd::Unb, Bnd::Exc(v)), RangeSpec(Bnd::Inc(v), Bnd::Unb), RangeSpec(Bnd::Exc(v / 3), Bnd::Inc(v)), RangeSpec(Bnd::Inc(v / 2), Bnd::Exc(v))])
         }
     };
     match rng.below(16) {
